@@ -74,7 +74,67 @@ chk('C20',
     'symbolic execution of check_options/set_options/options()/get_option with symbolic value and nesting choices; reference = documented grammar',
     'DESIGN.md section 4 C20')
 
-for _p in ['C05','C07','C08','C09','C10','C13','C15','C16','C18']:
-    NA[_p] = 'check under construction in this session (see DESIGN.md section 4); will be claimed once its harness is committed'
+
+chk('C05',
+    'What a solver can reach of C05: the code pfst adds AROUND the C parser. K1: _astloc_from_src / _offset_linenos / _syntax_error_in_loc == direct definitions for symbolic sources and all integers. '
+    'K2: _has_trailing_comma/_semicolon == an independent scanner with multi-byte text before the position. K3: _verify_no_close_delimiters raises exactly when the delimiter depth outside the first element goes negative '
+    '(the guard that keeps "a),(b" from being accepted because of the wrapper). P1: 25 fragments x their extended parse modes == the sub-tree of the embedding construct parsed by CPython with positions relative to the fragment, 22 wrapper-escape / invalid texts rejected.',
+    'NOT claimed: the main clause over ARBITRARY source text (it has to pass through ast.parse, C code; no symbolic dimension survives) - stated in DESIGN.md section 5 and level_note. Bounds: sources <= 5 symbolic characters, listed fragment tables.',
+    'symbolic execution of the position fix-up and wrapper-escape guards in parsex over symbolic characters/integers; table of fragments judged by CPython for the mode wrappers',
+    'DESIGN.md section 4 C05')
+chk('C07',
+    'P1: get_slice / cut on 29 carriers with (start, stop) symbolic over Z: source tree byte-identical incl. every position after a copy; the piece, re-rendered and parsed by CPython inside the same kind of container, is exactly old[s:e]; '
+    'expression pieces equal CPython\'s parse of their own source incl. positions; cut returns what copy returns and leaves what delete leaves; NAME/NUMBER/STRING/COMMENT multisets: original == remainder + piece. '
+    'P2: copy() of every node leaves the tree untouched and parses alone to the same structure. T1: copies under Unicode re-lettering (all code points >= U+0080 at marked positions).',
+    'Bounds: listed carriers, default options + norm=True. Outside: other programs/option values.',
+    'symbolic execution of get_slice/copy/cut with symbolic bounds; CPython re-parse of the extracted piece and token accounting as oracles; re-lettering templates',
+    'DESIGN.md section 4 C07')
+chk('C08',
+    'K1: repr_str_multiline over strings of <= 4 symbolic characters from the alphabet that drives its quoting/escaping decisions, decoded by an independent triple-quote decoder == input. '
+    'T1: put_line_comment(text) / get_line_comment() read back for EVERY code point >= U+0080 at marked positions of the text (solver found the documented trailing-whitespace strip via U+3000). '
+    'P1: cut-and-put-back and replace-by-own copy / AST / source with symbolic indices, repeated twice: CPython-parsed structure equals the original. P2: 25 nasty docstring texts x every def/class/module: read back + CPython sees the same docstring. P3: own_src() of every node parses to that node.',
+    'Bounds: listed carriers/texts/alphabet.',
+    'symbolic execution of the quoting kernel and comment accessor over symbolic characters; round trips with symbolic indices judged by CPython',
+    'DESIGN.md section 4 C08')
+chk('C09',
+    'P1: every expression slot of 8 parent programs (all operators incl. associativity sides, call/subscript/attribute bases, comprehension parts, lambda/conditional parts, starred/keyword values, await/yield, statement slots, patterns, '
+    'multi-line and parenthesised layouts) x 49 replacement snippets of every expression kind (one-line, multi-line, pre-parenthesised): replace() must give source that CPython parses to the parent with exactly that replacement (reference: same substitution on the pure AST); '
+    'refusal only if the substituted AST does not survive unparse->parse. ~9,000 (slot, snippet) pairs, solver-enumerated finite choice. T1: replace scripts under Unicode re-lettering (byte vs char position of the new node).',
+    'The precedence decision itself is table look-up over finite types: no integer/character variable exists for a solver to quantify, so the judge is CPython on every pair (stated). Outside: parents/snippets not in the tables; pars=False.',
+    'finite-choice exploration through the symbolic driver with CPython parse of the pure-AST substitution as oracle; Unicode re-lettering for positions',
+    'DESIGN.md section 4 C09')
+chk('C10',
+    'P1: put_src(text, ln, col, end_ln, end_col, "reparse") on 9 carriers x 12 replacement texts with the rectangle SYMBOLIC over Z^4 (clipped, negative, reversed, on/off node boundaries, spanning statements): '
+    'S = independent splice; if CPython parses S the call must return, root.src == S, tree == ast.parse(S) incl. every position, links consistent, returned end position right; otherwise it must raise with source, tree and registry unchanged. '
+    'P2: replace(code, raw=True) on every node x 10 codes. One large defect family fixed (commit 1fb1d70: 534 of 115k concrete combinations disagreed before).',
+    'Bounds: listed carriers/texts. Outside: reparse() with changed parse parameters.',
+    'symbolic execution of put_src/raw reparse with a symbolic rectangle; independent splice + CPython parse as oracle',
+    'DESIGN.md section 4 C10')
+chk('C13',
+    'P1: 3 carriers x scripts of two pure-AST mutations (12 kinds: new node, node from another tree, delete/insert/swap/duplicate/move statements, rename, constant/operator change, sibling swap) at symbolic node ordinals, 1-2 mark/reconcile rounds: '
+    'result == CPython parse of its source incl. positions, structurally equal to the edited AST, unchanged source for the empty script, untouched top-level statements keep their exact text incl. comments. Finite script space, solver-enumerated. One defect fixed (8f3f48e).',
+    'Bounds: listed carriers and mutation kinds, 2 mutations per round.',
+    'finite-choice exploration of mutation scripts through the symbolic driver; oracle = CPython parse + dump equality with the edited AST',
+    'DESIGN.md section 4 C13')
+chk('C15',
+    'P1: 4 carriers x 7 walk settings with a SYMBOLIC consumer schedule: at which yield (k over 0..40) which of 10 actions (replace/remove current node, parent, grand-parent, previous/next sibling, insert before) happens and what is sent back (none/False/True); '
+    'thorough: two events k1 < k2. Every yield alive, in this tree and not seen before on entry; termination bound; new children of a replacement walked next; final tree == CPython parse. P2: search() consumer replacing/removing matches.',
+    'Bounds: listed carriers, <= 2 mutation events. Outside: cut / raw edits during a walk (documented unsupported).',
+    'symbolic execution of walk() under symbolic mutation schedules (bounded model checking over schedules)',
+    'DESIGN.md section 4 C15')
+chk('C16',
+    'P1: 20 program templates (defaults, nested functions, global/nonlocal, class bodies, lambda, generator expressions incl. call / nested first iterables and walrus, imports, augmented assignment, except-as, match captures, decorators/annotations, type parameters, with/for) '
+    'with every identifier slot symbolic over {a,b,c}: all aliasing patterns. Oracle symtable.symtable: load/store/del/global/nonlocal/local/free categories of scope_symbols(full=True) for every scope == symtable flags under a fixed mapping; scope walk yields no load of another scope. '
+    'Names are realised before reaching CPython: the solver buys the aliasing partition only (stated). Two defects fixed (d2df3c8, 512fb98), one known finding (PEP 695 annotation scope).',
+    'Bounds: listed templates; list/set/dict comprehensions are inlined by CPython 3.12 (no child table): for those only "pfst reports => CPython has" is judged.',
+    'finite aliasing-pattern exploration through the symbolic driver; oracle = CPython symtable',
+    'DESIGN.md section 4 C16')
+chk('C18',
+    'P1: 4 carriers x 4 (pattern, template) rows (single-node capture, slice capture, whole-match identity, name->attribute) with count symbolic in -2..12, nested and on=leave symbolic: '
+    'result == CPython parse incl. positions == a 40-line reference transformer on the pure AST (outermost first / captured nodes re-examined when nested / bottom-up on leave), reported counts == reference, comments outside substituted nodes conserved.',
+    'Lowest depth of the claimed properties: thin integer domain, finite choice otherwise (stated). Outside: loop, callbacks, other rows.',
+    'symbolic-parameter exploration of subn(); oracle = reference AST transformer + CPython parse',
+    'DESIGN.md section 4 C18')
+
 NA['C19'] = ('coercion maps (tree, mode) to a tree through unparse/ast.parse (C code) before any pfst coercion code runs: no integer, character or schedule variable survives '
              'symbolically, what remains is a finite table judged by the C parser, i.e. enumeration of concrete runs, not a solver question (DESIGN.md section 5)')
